@@ -41,7 +41,7 @@ def run(ctx):
             if kind == 'aa-file-at-2':
                 body = b'\xAA' * 8 + r.bytes(r.range(0, 600))
                 f = discs.AbsFile(0x24, b'AA', False, 0, 0, 2, body)
-                more = discs.layout_files(r, r.below(4), 2 + f.sectors(), 400, used)
+                more = discs.layout_files(r, r.choice([0, 1, 2, 3, 29, 30, 30]), 2 + f.sectors(), 400, used)     # 30 more: the sector-2 file sits in the 31st (last) slot
                 files = [f] + more
                 files.reverse()
                 d = discs.AbsDisc('dfs', r.choice([40, 80]), 10)
